@@ -59,3 +59,39 @@ def lemma_elif(c):
 
 def lemma_elif_wrong(c):
     return elif_merge(c) == ite(c == 5, 2, 1)
+
+
+# ---- termination rule (LoopSpec.variant): a timeout loop that consults the clock, and one that does not
+
+import time  # noqa: E402
+from pyvc.specrt import clock_now  # noqa: E402
+
+
+def wait_ok(d):
+    deadline = d + time.monotonic_ns()
+    n = 0
+    while time.monotonic_ns() < deadline:
+        n = n + 1
+    return n
+
+
+def wait_bad(d):
+    deadline = d + time.monotonic_ns()
+    n = 0
+    while deadline >= 0:
+        n = n + 1
+        if n > 1000000 and time.monotonic_ns() < 0:
+            break
+    return n
+
+
+def inv_wait(n):
+    return n >= 0
+
+
+def var_wait(deadline):
+    return deadline - clock_now()
+
+
+def ens_wait(result, exc):
+    return exc is None and result >= 0
